@@ -60,6 +60,16 @@ fn one(case: &Value) -> Result<Value, String> {
                 let again = conjure_serde::json::to_string(&any).map_err(|e| e.to_string());
                 let stable = again.as_ref().ok().and_then(|a| serde_json::from_str::<Value>(a).ok()) == serde_json::from_str::<Value>(doc).ok();
                 out["json_stable"] = json!({"stable": stable, "again": again.unwrap_or_else(|e| format!("ERR {e}"))});
+                // (c') the dynamic value viewed by self-describing consumers: as another Any and as a serde_json::Value; both must
+                // see what direct parsing of the document sees (keys stay strings)
+                let as_any = any.clone().deserialize_into::<Any>();
+                let as_value = any.clone().deserialize_into::<Value>();
+                out["self_describing"] = json!({
+                    "any_equal": as_any.as_ref().ok() == Some(&any),
+                    "any_json": as_any.ok().and_then(|a| conjure_serde::json::to_string(&a).ok()),
+                    "value_equal": as_value.as_ref().ok() == serde_json::from_str::<Value>(doc).ok().as_ref(),
+                    "value_json": as_value.map(|v| v.to_string()).unwrap_or_else(|e| format!("ERR {e}")),
+                });
                 // (d) coercions agree with direct parsing
                 if !case["view_ty"].is_null() {
                     let ty = type_from_json(&case["view_ty"])?;
